@@ -1,5 +1,5 @@
 """C13  A constraint error accounts for every input byte (fault enumeration)."""
-from .. import bscope, cases, faultspace, oracle
+from .. import bscope, cases, faultspace, loader, oracle
 from ..ref import values as V
 
 LEVEL = "fault_enumeration"
@@ -20,6 +20,8 @@ def units(tier, seed):
     for u in us:
         u["seed"], u["tier"] = seed, tier
     us += bscope.units(tier, seed)
+    for i in range(6):
+        us.append({"kind": "front-ends", "stream": i, "label": f"front-ends:{i}", "seed": seed, "tier": tier})
     return us
 
 
@@ -47,7 +49,73 @@ def accounting(acc, case, m, f, ref, r):
         acc.violation({"clause": "remaining-not-a-suffix", "kind": r.kind, "root": oracle.rootclass(case.root)}, d, f"{r.kind}: remaining {r.remaining.hex()} is not a suffix of the input", size=len(m))
 
 
+def front_ends(acc, unit):
+    """the same rejections reached through the other front-ends (hex text, swtpm log, auto-detected binary, Canonical):
+    the error must carry the same remaining bytes as the binary decoder's"""
+    from .. import faults, impl
+    from ..ref import text
+    from ..ref.decode import decode
+    from . import c15
+
+    ns = loader.load()
+    from tpmstream.common.canonical import Canonical
+    from tpmstream.io.auto import Auto
+    from tpmstream.io.hex import Hex
+    from tpmstream.io.swtpm_log import SWTPMLog
+
+    label, msgs, _ = c15.streams(unit["seed"])[unit["stream"]]
+    carried = b"".join(msgs)
+    ref0 = decode("CommandResponseStream", carried)
+    muts = [(carried, {"fault": "none"})]
+    muts += list(faults.value_corruptions(carried, ref0.fields, unit["seed"]))
+    muts += list(faults.size_perturbations(carried, ref0.fields, deltas=(-3, -1, 1, 2), absolutes=(0,), with_max=False, roles=("size", "count")))
+    for m, f in muts:
+        loader.cache_clear()
+        b = impl.run("CommandResponseStream", m, strict=True)
+        if b.kind not in ("Value", "Anticipated", "Exceeded", "Subceeded") or not isinstance(b.remaining, (bytes, bytearray)):
+            continue
+        # where the carried messages start: a swtpm log carries them one section each
+        cuts, off = [], 0
+        for x in msgs:
+            cuts.append(off)
+            off += len(x)
+        parts = [m[c:d] for c, d in zip(cuts, cuts[1:] + [len(m)])]
+        fronts = [
+            ("hex", lambda: Hex.marshal(tpm_type=ns.CommandResponseStream, buffer=text.hex_text(m, "lower", " "), abort_on_error=True)),
+            ("swtpm", lambda: SWTPMLog.marshal(tpm_type=ns.CommandResponseStream, buffer=text.swtpm_log([("io", p_, "Read" if i % 2 == 0 else "Write") for i, p_ in enumerate(parts)], ("log",)), abort_on_error=True)),
+            ("auto", lambda: Auto.marshal(tpm_type=ns.CommandResponseStream, buffer=m, abort_on_error=True)),
+            ("canonical", lambda: iter(Canonical(m, tpm_type=ns.CommandResponseStream).events)),
+        ]
+        for fname, mk in fronts:
+            loader.cache_clear()
+            acc.count("evaluations")
+            acc.count("front_end_runs")
+            kind, rem = "Done", None
+            try:
+                for _ in mk():
+                    pass
+            except Exception as e:  # noqa: BLE001
+                kind, _d = impl.norm_err(e)
+                if isinstance(e, ns.err.ConstraintViolatedError) and e.bytes_remaining is not None:
+                    try:
+                        str(e)
+                        rem = bytes(e.bytes_remaining)
+                    except Exception as e2:  # noqa: BLE001
+                        rem = "ESCAPE:" + type(e2).__name__
+            acc.shape(("front", fname, b.kind, f.get("path")))
+            if kind != b.kind or rem != b.remaining:
+                acc.violation({"clause": "front-end-remaining", "front": fname, "kind": b.kind, "same_error": kind == b.kind}, {"harness": "front-ends", "front": fname, "stream": unit["stream"], "input": m.hex(), "fault": f}, f"through {fname}: {kind} with bytes_remaining {rem.hex() if isinstance(rem, (bytes, bytearray)) else rem!r}; the binary decoder: {b.kind} with {b.remaining.hex()!r}", size=len(m))
+    acc.sample({"unit": unit["label"], "stream": label, "faulted_inputs": len(muts), "front_ends": ["hex", "swtpm", "auto", "canonical"]}, cap=2)
+
+
 def run_unit(unit):
+    if unit["kind"] == "front-ends":
+        from ..runner import Acc
+
+        acc = Acc()
+        loader.load()
+        front_ends(acc, unit)
+        return acc
     if unit["kind"] == "bscope":
         return bscope.run_b_unit(unit, strict_own=B_STRICT, warn_props=B_WARN)
     fams = ["size", "value", "last"] + (["subst"] if unit["tier"] == "thorough" or unit["kind"] == "struct" else [])
